@@ -1,0 +1,287 @@
+//go:build verif
+
+// C18 contracts for package recordlayer (comment-only; read by /verif/vc).
+package recordlayer
+
+// ASSUMPTION (props/C18.json): the package variable ErrInvalidPacketLength (initialised from
+// internal/errors.ErrInvalidPacketLength) is non-nil. The engine does not track that initialiser, so
+// "accepted" / "rejected" are written so that a return of that variable counts as a rejection.
+//@ define ACC(e) (e == nil && !sameRef(e, ErrInvalidPacketLength))
+//@ define REJ(e) (e != nil || sameRef(e, ErrInvalidPacketLength))
+// (ACC only in antecedents, REJ only in consequents; "accepted" as a consequent is written e == nil)
+
+// RFC 9147 4 (unified header): first byte 0 0 1 C S L E E; connection ID (if C, length from context);
+// sequence number 16 bits if S else 8 bits; length 16 bits if L.
+
+//@ define UH_C(d) (d[0]&0x10 != 0)
+//@ define UH_S(d) (d[0]&0x08 != 0)
+//@ define UH_L(d) (d[0]&0x04 != 0)
+//@ define UH_BE16(d, o) (uint16(d[o])<<8 | uint16(d[(o)+1]))
+
+//@ func UnifiedHeader.Marshal
+//@ inline
+//@ ensures cid-too-big: len(old(u.ConnectionID)) > 255 ==> result1 != nil
+//@ ensures ok: len(old(u.ConnectionID)) <= 255 ==> result1 == nil
+//@ ensures size: result1 == nil ==> (u.SeqBit && u.LengthBit ==> len(result0) == 5 + len(u.ConnectionID))
+//@    && (u.SeqBit && !u.LengthBit ==> len(result0) == 3 + len(u.ConnectionID))
+//@    && (!u.SeqBit && u.LengthBit ==> len(result0) == 4 + len(u.ConnectionID))
+//@    && (!u.SeqBit && !u.LengthBit ==> len(result0) == 2 + len(u.ConnectionID))
+//@ ensures layout-fixed-bits: result1 == nil ==> result0[0]&0xE0 == 0x20
+//@ ensures layout-flags: result1 == nil ==> UH_C(result0) == (len(u.ConnectionID) > 0) && UH_S(result0) == u.SeqBit && UH_L(result0) == u.LengthBit
+//@ ensures layout-epoch: result1 == nil ==> result0[0]&0x03 == u.EpochLow&0x03
+//@ ensures layout-cid: result1 == nil ==> forall(0, len(u.ConnectionID), func(i int) bool { return result0[1+i] == u.ConnectionID[i] })
+//@ ensures layout-seq16: result1 == nil && u.SeqBit ==> UH_BE16(result0, 1+len(u.ConnectionID)) == u.SequenceNumber
+//@ ensures layout-seq8: result1 == nil && !u.SeqBit ==> result0[1+len(u.ConnectionID)] == byte(u.SequenceNumber)
+//@ ensures layout-len-s: result1 == nil && u.LengthBit && u.SeqBit ==> UH_BE16(result0, 3+len(u.ConnectionID)) == u.Length
+//@ ensures layout-len-nos: result1 == nil && u.LengthBit && !u.SeqBit ==> UH_BE16(result0, 2+len(u.ConnectionID)) == u.Length
+//@ ensures frame: len(u.ConnectionID) == old(len(u.ConnectionID)) && u.SequenceNumber == old(u.SequenceNumber) && u.SeqBit == old(u.SeqBit)
+//@    && u.Length == old(u.Length) && u.LengthBit == old(u.LengthBit) && u.EpochLow == old(u.EpochLow)
+//@ end
+
+//@ func UnifiedHeader.Size
+//@ inline
+//@ ensures size: (u.SeqBit && u.LengthBit ==> result == 5 + len(u.ConnectionID))
+//@    && (u.SeqBit && !u.LengthBit ==> result == 3 + len(u.ConnectionID))
+//@    && (!u.SeqBit && u.LengthBit ==> result == 4 + len(u.ConnectionID))
+//@    && (!u.SeqBit && !u.LengthBit ==> result == 2 + len(u.ConnectionID))
+//@ end
+
+// Decoding: the CID length is len(u.ConnectionID) on entry (the negotiated length).
+//@ define UH_CIDLEN(u) len(old(u.ConnectionID))
+//@ define UH_CASE_SHORT(d, c, s, l, need) (len(d) >= 1 && UH_C(d) == c && UH_S(d) == s && UH_L(d) == l && len(d) < need ==> result != nil)
+//@ define UH_CASE_OK(d, c, s, l, need) (len(d) >= 1 && d[0]&0xE0 == 0x20 && UH_C(d) == c && UH_S(d) == s && UH_L(d) == l && len(d) >= need ==> result == nil)
+
+//@ func UnifiedHeader.Unmarshal
+//@ inline
+//@ ensures empty: len(data) == 0 ==> result != nil
+//@ ensures bad-fixed-bits: len(data) >= 1 && data[0]&0xE0 != 0x20 ==> result != nil
+//@ ensures truncated-cid: UH_CASE_SHORT(data, true, true, true, 5+UH_CIDLEN(u)) && UH_CASE_SHORT(data, true, true, false, 3+UH_CIDLEN(u))
+//@    && UH_CASE_SHORT(data, true, false, true, 4+UH_CIDLEN(u)) && UH_CASE_SHORT(data, true, false, false, 2+UH_CIDLEN(u))
+//@ ensures truncated-nocid: UH_CASE_SHORT(data, false, true, true, 5) && UH_CASE_SHORT(data, false, true, false, 3)
+//@    && UH_CASE_SHORT(data, false, false, true, 4) && UH_CASE_SHORT(data, false, false, false, 2)
+//@ ensures ok-cid: UH_CASE_OK(data, true, true, true, 5+UH_CIDLEN(u)) && UH_CASE_OK(data, true, true, false, 3+UH_CIDLEN(u))
+//@    && UH_CASE_OK(data, true, false, true, 4+UH_CIDLEN(u)) && UH_CASE_OK(data, true, false, false, 2+UH_CIDLEN(u))
+//@ ensures ok-nocid: UH_CASE_OK(data, false, true, true, 5) && UH_CASE_OK(data, false, true, false, 3)
+//@    && UH_CASE_OK(data, false, false, true, 4) && UH_CASE_OK(data, false, false, false, 2)
+//@ ensures flags: result == nil ==> u.SeqBit == UH_S(data) && u.LengthBit == UH_L(data) && u.EpochLow == data[0]&0x03
+//@ ensures cid: result == nil && UH_C(data) ==> len(u.ConnectionID) == UH_CIDLEN(u) && forall(0, len(u.ConnectionID), func(i int) bool { return u.ConnectionID[i] == data[1+i] })
+//@ ensures nocid: result == nil && !UH_C(data) ==> len(u.ConnectionID) == 0
+//@ ensures seq16-cid: result == nil && UH_C(data) && UH_S(data) ==> u.SequenceNumber == UH_BE16(data, 1+UH_CIDLEN(u))
+//@ ensures seq16-nocid: result == nil && !UH_C(data) && UH_S(data) ==> u.SequenceNumber == UH_BE16(data, 1)
+//@ ensures seq8-cid: result == nil && UH_C(data) && !UH_S(data) ==> u.SequenceNumber == uint16(data[1+UH_CIDLEN(u)])
+//@ ensures seq8-nocid: result == nil && !UH_C(data) && !UH_S(data) ==> u.SequenceNumber == uint16(data[1])
+//@ ensures len-s-cid: result == nil && UH_C(data) && UH_L(data) && UH_S(data) ==> u.Length == UH_BE16(data, 3+UH_CIDLEN(u))
+//@ ensures len-s-nocid: result == nil && !UH_C(data) && UH_L(data) && UH_S(data) ==> u.Length == UH_BE16(data, 3)
+//@ ensures len-nos-cid: result == nil && UH_C(data) && UH_L(data) && !UH_S(data) ==> u.Length == UH_BE16(data, 2+UH_CIDLEN(u))
+//@ ensures len-nos-nocid: result == nil && !UH_C(data) && UH_L(data) && !UH_S(data) ==> u.Length == UH_BE16(data, 2)
+//@ ensures nolen: result == nil && !UH_L(data) ==> u.Length == 0
+//@ ensures input-unchanged: forall(0, len(data), func(i int) bool { return data[i] == old(data[i]) })
+//@ end
+
+// RFC 9147 4 / RFC 8446 5.2: struct { opaque content[length]; ContentType type; uint8 zeros[length_of_padding]; }
+// DTLSInnerPlaintext; the type is the last non-zero byte.
+
+//@ func InnerPlaintext.Marshal
+//@ inline
+//@ ensures ok: old(p.Zeros) <= 65536 ==> result1 == nil
+//@ ensures size: result1 == nil && p.Zeros <= 65536 ==> len(result0) == len(p.Content) + 1 + int(p.Zeros)
+//@ ensures layout-content: result1 == nil && p.Zeros <= 65536 ==> forall(0, len(p.Content), func(i int) bool { return result0[i] == p.Content[i] })
+//@ ensures layout-type: result1 == nil && p.Zeros <= 65536 ==> result0[len(p.Content)] == byte(p.RealType)
+//@ ensures layout-zeros: result1 == nil && p.Zeros <= 65536 ==> forall(len(p.Content)+1, len(result0), func(i int) bool { return result0[i] == 0 })
+//@ ensures frame: len(p.Content) == old(len(p.Content)) && p.RealType == old(p.RealType) && p.Zeros == old(p.Zeros)
+//@ end
+
+//@ func InnerPlaintext.Unmarshal
+//@ inline
+//@ loop i: padding: forall(i+1, len(data), func(j int) bool { return data[j] == 0 })
+//@ loop i: input-kept: forall(0, len(data), func(j int) bool { return data[j] == old(data[j]) })
+//@ ensures empty: len(data) == 0 ==> result != nil
+//@ ensures all-zero: forall(0, len(data), func(j int) bool { return data[j] == 0 }) ==> result != nil
+//@ ensures ok: exists(0, len(data), func(j int) bool { return data[j] != 0 }) ==> result == nil
+//@ ensures size: result == nil ==> len(p.Content) + 1 + int(p.Zeros) == len(data) && len(p.Content) >= 0 && len(p.Content) < len(data)
+//@ ensures content: result == nil ==> forall(0, len(p.Content), func(j int) bool { return p.Content[j] == data[j] })
+//@ ensures type: result == nil ==> p.RealType == protocol.ContentType(data[len(p.Content)]) && p.RealType != 0
+//@ ensures zeros: result == nil ==> forall(len(p.Content)+1, len(data), func(j int) bool { return data[j] == 0 })
+//@ ensures fresh: result == nil && len(p.Content) > 0 ==> !sameArray(p.Content, data)
+//@ ensures input-unchanged: forall(0, len(data), func(j int) bool { return data[j] == old(data[j]) })
+//@ end
+
+// Datagram splitting (RFC 6347 4.1: a datagram is a sequence of records, each 13 header bytes —
+// plus the connection ID for tls12_cid records — and `length` content bytes). The returned records are
+// consecutive, non-empty sub-slices of buf that cover it exactly.
+
+//@ define REC_LEN16(r, o) (int(r[o])<<8 | int(r[(o)+1]))
+// One atom per quantified clause (conjunctions inside one quantifier are much slower to discharge).
+//@ define PART_IN(out, buf) forall(0, len(out), func(k int) bool { return sameArray(out[k], buf) })
+//@ define PART_MINLEN(out, n) forall(0, len(out), func(k int) bool { return len(out[k]) >= n })
+//@ define PART_FIRST(out, buf) (len(out) > 0 ==> offsetOf(out[0]) == offsetOf(buf))
+// (written with two indices so that instantiating it creates no new out[k+1] terms)
+//@ define PART_CONSEC(out) forall(0, len(out), func(k int) bool { return forall(0, len(out), func(j int) bool { return j == k+1 ==> offsetOf(out[j]) == offsetOf(out[k]) + len(out[k]) }) })
+//@ define PART_LAST(out, buf, end) (len(out) > 0 ==> offsetOf(out[len(out)-1]) + len(out[len(out)-1]) == offsetOf(buf) + (end))
+// the length field of record k, read through buf (out[k] is a window of buf starting at offsetOf(out[k]) - offsetOf(buf))
+//@ define PART_DECL(out, buf) forall(0, len(out), func(k int) bool { return len(out[k]) == 13 + REC_LEN16(buf, offsetOf(out[k]) - offsetOf(buf) + 11) })
+
+//@ func UnpackDatagram
+//@ loop offset: in-buf: PART_IN(out, buf)
+//@ loop offset: min-len: PART_MINLEN(out, 13)
+//@ loop offset: first: PART_FIRST(out, buf)
+//@ loop offset: last: PART_LAST(out, buf, offset)
+//@ loop offset: none-yet: len(out) == 0 ==> offset == 0
+//@ loop offset: some: len(out) > 0 ==> offset >= 13 && len(buf) > 13
+//@ loop offset: non-nil: out != nil
+//@ loop offset: first-fits: len(out) > 0 ==> 13 + REC_LEN16(buf, 11) <= offset
+//@ loop offset: first-only: len(out) == 1 ==> offset == 13 + REC_LEN16(buf, 11)
+//@ loop offset: more: len(out) >= 2 ==> offset > 13 + REC_LEN16(buf, 11)
+//@ loop offset: consecutive: PART_CONSEC(out)
+//@ loop offset: declared: PART_DECL(out, buf)
+//@ loop offset: input-kept: forall(0, len(buf), func(j int) bool { return buf[j] == old(buf[j]) })
+//@ ensures err-nil: result1 != nil ==> result0 == nil
+//@ ensures empty: len(buf) == 0 ==> result1 == nil && len(result0) == 0
+//@ ensures nonempty: result0 != nil && len(buf) > 0 ==> len(result0) > 0
+//@ ensures in-buf: result1 == nil ==> PART_IN(result0, buf)
+//@ ensures min-len: result1 == nil ==> PART_MINLEN(result0, 13)
+//@ ensures first: result1 == nil ==> PART_FIRST(result0, buf)
+//@ ensures consecutive: result1 == nil ==> PART_CONSEC(result0)
+//@ ensures last: result1 == nil ==> PART_LAST(result0, buf, len(buf))
+//@ ensures declared-len: result1 == nil ==> PART_DECL(result0, buf)
+//@ ensures short-first: len(buf) > 0 && len(buf) <= 13 ==> REJ(result1)
+//@ ensures truncated-first: len(buf) > 13 && 13 + REC_LEN16(buf, 11) > len(buf) ==> REJ(result1)
+//@ ensures short-first-ref: len(buf) > 0 && len(buf) <= 13 ==> sameRef(result1, ErrInvalidPacketLength) && result0 == nil
+//@ ensures truncated-first-ref: len(buf) > 13 && 13 + REC_LEN16(buf, 11) > len(buf) ==> sameRef(result1, ErrInvalidPacketLength) && result0 == nil
+//@ ensures single-ok: len(buf) > 13 && 13 + REC_LEN16(buf, 11) == len(buf) ==> result1 == nil && len(result0) == 1
+//@ ensures input-unchanged: forall(0, len(buf), func(j int) bool { return buf[j] == old(buf[j]) })
+//@ end
+
+// With connection IDs (RFC 9146 4): a tls12_cid record (type 25) carries cidLength CID bytes between the
+// sequence number and the length field.
+
+//@ define REC_START(r, buf) (offsetOf(r) - offsetOf(buf))
+//@ define PART_DECL_PLAIN(out, buf) forall(0, len(out), func(k int) bool { return buf[REC_START(out[k], buf)] != 25 ==> len(out[k]) == 13 + REC_LEN16(buf, REC_START(out[k], buf) + 11) })
+//@ define PART_DECL_CID(out, buf, n) forall(0, len(out), func(k int) bool { return buf[REC_START(out[k], buf)] == 25 ==> len(out[k]) == 13 + n + REC_LEN16(buf, REC_START(out[k], buf) + 11 + n) })
+
+//@ func ContentAwareUnpackDatagram
+//@ loop offset: in-buf: PART_IN(out, buf)
+//@ loop offset: min-len: PART_MINLEN(out, 13)
+//@ loop offset: first: PART_FIRST(out, buf)
+//@ loop offset: last: PART_LAST(out, buf, offset)
+//@ loop offset: none-yet: len(out) == 0 ==> offset == 0
+//@ loop offset: some: len(out) > 0 ==> offset >= 13 && len(buf) > 13
+//@ loop offset: non-nil: out != nil
+//@ loop offset: first-fits-plain: len(out) > 0 && buf[0] != 25 ==> 13 + REC_LEN16(buf, 11) <= offset
+//@ loop offset: first-fits-cid: len(out) > 0 && buf[0] == 25 ==> 13 + cidLength + REC_LEN16(buf, 11 + cidLength) <= offset && len(buf) > 13 + cidLength
+//@ loop offset: consecutive: PART_CONSEC(out)
+// (the solvers do not decide the preservation of the two declared-* invariants across append; they are kept so
+// that the declared-len clauses are stated against an explicit invariant rather than refuted for lack of one)
+//@ loop offset: declared-plain: PART_DECL_PLAIN(out, buf)
+//@ loop offset: declared-cid: PART_DECL_CID(out, buf, cidLength)
+//@ loop offset: input-kept: forall(0, len(buf), func(j int) bool { return buf[j] == old(buf[j]) })
+//@ ensures err-nil: result1 != nil ==> result0 == nil
+//@ ensures empty: len(buf) == 0 ==> result1 == nil && len(result0) == 0
+//@ ensures nonempty: result0 != nil && len(buf) > 0 ==> len(result0) > 0
+//@ ensures in-buf: result1 == nil ==> PART_IN(result0, buf)
+//@ ensures min-len: result1 == nil ==> PART_MINLEN(result0, 13)
+//@ ensures first: result1 == nil ==> PART_FIRST(result0, buf)
+//@ ensures consecutive: result1 == nil ==> PART_CONSEC(result0)
+//@ ensures last: result1 == nil ==> PART_LAST(result0, buf, len(buf))
+//@ ensures declared-len-plain: result1 == nil ==> PART_DECL_PLAIN(result0, buf)
+//@ ensures declared-len-cid: result1 == nil ==> PART_DECL_CID(result0, buf, cidLength)
+//@ ensures short-first-ref: len(buf) > 0 && buf[0] != 25 && len(buf) <= 13 ==> sameRef(result1, ErrInvalidPacketLength) && result0 == nil
+//@ ensures short-first-cid-ref: len(buf) > 0 && buf[0] == 25 && len(buf) <= 13 + cidLength ==> sameRef(result1, ErrInvalidPacketLength) && result0 == nil
+//@ ensures truncated-first-ref: len(buf) > 13 && buf[0] != 25 && 13 + REC_LEN16(buf, 11) > len(buf) ==> sameRef(result1, ErrInvalidPacketLength) && result0 == nil
+//@ ensures truncated-first-cid-ref: len(buf) > 13 + cidLength && buf[0] == 25 && 13 + cidLength + REC_LEN16(buf, 11 + cidLength) > len(buf) ==> sameRef(result1, ErrInvalidPacketLength) && result0 == nil
+//@ ensures truncated-first: len(buf) > 13 && buf[0] != 25 && 13 + REC_LEN16(buf, 11) > len(buf) ==> REJ(result1)
+//@ ensures input-unchanged: forall(0, len(buf), func(j int) bool { return buf[j] == old(buf[j]) })
+//@ end
+
+// RFC 9147 4: DTLSCiphertext = unified header (here always with S=1 and L=1 when sending) followed by
+// `length` bytes of encrypted record; 16 <= length <= 2^14 + 256.
+
+//@ func CiphertextRecord13.Marshal
+//@ ensures too-short: len(old(r.EncryptedRecord)) < 16 ==> REJ(result1)
+//@ ensures too-long: len(old(r.EncryptedRecord)) > 16640 ==> REJ(result1)
+//@ ensures cid-too-big: len(old(r.Header.ConnectionID)) > 255 ==> REJ(result1)
+//@ ensures ok: len(old(r.EncryptedRecord)) >= 16 && len(old(r.EncryptedRecord)) <= 16640 && len(old(r.Header.ConnectionID)) <= 255 ==> result1 == nil
+//@ ensures size: ACC(result1) ==> len(result0) == 5 + len(r.Header.ConnectionID) + len(r.EncryptedRecord)
+//@ ensures layout-first: ACC(result1) ==> result0[0]&0xE0 == 0x20 && UH_C(result0) == (len(r.Header.ConnectionID) > 0) && UH_S(result0) && UH_L(result0)
+//@    && result0[0]&0x03 == r.Header.EpochLow&0x03
+//@ ensures layout-cid: ACC(result1) ==> forall(0, len(r.Header.ConnectionID), func(i int) bool { return result0[1+i] == r.Header.ConnectionID[i] })
+//@ ensures layout-seq: ACC(result1) ==> UH_BE16(result0, 1+len(r.Header.ConnectionID)) == r.Header.SequenceNumber
+//@ ensures layout-length: ACC(result1) ==> int(UH_BE16(result0, 3+len(r.Header.ConnectionID))) == len(r.EncryptedRecord)
+//@ ensures layout-body: ACC(result1) ==> forall(0, len(r.EncryptedRecord), func(i int) bool { return result0[5+len(r.Header.ConnectionID)+i] == r.EncryptedRecord[i] })
+//@ ensures frame: len(r.EncryptedRecord) == old(len(r.EncryptedRecord)) && len(r.Header.ConnectionID) == old(len(r.Header.ConnectionID))
+//@    && r.Header.SequenceNumber == old(r.Header.SequenceNumber) && r.Header.EpochLow == old(r.Header.EpochLow)
+//@ end
+
+// hs = size of the unified header announced by the first byte, CID length from context.
+//@ define CR_CID(r, d) len(r.Header.ConnectionID)
+//@ define CR_LEN_OK(n) ((n) >= 16 && (n) <= 16640)
+
+//@ func CiphertextRecord13.Unmarshal
+//@ ensures empty: len(data) == 0 ==> REJ(result)
+//@ ensures bad-fixed-bits: len(data) >= 1 && data[0]&0xE0 != 0x20 ==> REJ(result)
+//@ ensures header-flags: ACC(result) ==> r.Header.SeqBit == UH_S(data) && r.Header.LengthBit == UH_L(data) && r.Header.EpochLow == data[0]&0x03
+//@ ensures header-cid: ACC(result) && UH_C(data) ==> len(r.Header.ConnectionID) == len(old(r.Header.ConnectionID))
+//@ ensures header-nocid: ACC(result) && !UH_C(data) ==> len(r.Header.ConnectionID) == 0
+//@ ensures size-sl: ACC(result) && UH_S(data) && UH_L(data) ==> len(data) == 5 + CR_CID(r, data) + len(r.EncryptedRecord)
+//@ ensures size-s: ACC(result) && UH_S(data) && !UH_L(data) ==> len(data) == 3 + CR_CID(r, data) + len(r.EncryptedRecord)
+//@ ensures size-l: ACC(result) && !UH_S(data) && UH_L(data) ==> len(data) == 4 + CR_CID(r, data) + len(r.EncryptedRecord)
+//@ ensures size-none: ACC(result) && !UH_S(data) && !UH_L(data) ==> len(data) == 2 + CR_CID(r, data) + len(r.EncryptedRecord)
+//@ ensures declared-len: ACC(result) && UH_L(data) ==> len(r.EncryptedRecord) == int(r.Header.Length)
+//@ ensures declared-len-sl: ACC(result) && UH_S(data) && UH_L(data) ==> len(r.EncryptedRecord) == int(UH_BE16(data, 3+CR_CID(r, data)))
+//@ ensures declared-len-l: ACC(result) && !UH_S(data) && UH_L(data) ==> len(r.EncryptedRecord) == int(UH_BE16(data, 2+CR_CID(r, data)))
+//@ ensures body-range: ACC(result) ==> CR_LEN_OK(len(r.EncryptedRecord))
+//@ ensures body: ACC(result) ==> forall(0, len(r.EncryptedRecord), func(i int) bool { return r.EncryptedRecord[i] == data[len(data)-len(r.EncryptedRecord)+i] })
+//@ ensures fresh: ACC(result) ==> !sameArray(r.EncryptedRecord, data)
+//@ ensures input-unchanged: forall(0, len(data), func(i int) bool { return data[i] == old(data[i]) })
+//@ end
+
+// RFC 9147 4: DTLSPlaintext = type(1) legacy_record_version(2) epoch(2) sequence_number(6) length(2) fragment[length];
+// epoch 0 only, length <= 2^14, types alert(21), handshake(22), ack(26).
+// Input bytes are read in the entry state (old): the content decoders are summarised by a havoc that may
+// include byte memory. For handshake content the engine havocs everything the (large, uncontracted)
+// Handshake.Unmarshal may write, including r.Header, so header clauses are split by content type.
+
+//@ define D(i) old(data[i])
+//@ define DLEN16(o) (int(old(data[o]))<<8 | int(old(data[(o)+1])))
+
+//@ func PlaintextRecord13.Unmarshal
+//@ ensures short: len(data) < 13 ==> REJ(result)
+//@ ensures bad-epoch: len(data) >= 13 && (D(3) != 0 || D(4) != 0) ==> REJ(result)
+//@ ensures truncated: len(data) >= 13 && len(data) - 13 < DLEN16(11) ==> REJ(result)
+//@ ensures trailing: len(data) >= 13 && len(data) - 13 > DLEN16(11) ==> REJ(result)
+//@ ensures too-long: len(data) >= 13 && DLEN16(11) > 16384 ==> REJ(result)
+//@ ensures bad-type: len(data) >= 13 && D(0) != 21 && D(0) != 22 && D(0) != 26 ==> REJ(result)
+//@ ensures declared-len: ACC(result) ==> len(data) == 13 + DLEN16(11)
+// [not checkable, engine havoc] ensures header-nonhs: ACC(result) && D(0) != 22 ==> r.Header.ContentType == protocol.ContentType(D(0)) && r.Header.Version.Major == D(1) && r.Header.Version.Minor == D(2)
+// [not checkable, engine havoc]    && r.Header.Epoch == 0 && int(r.Header.ContentLen) == DLEN16(11) && r.Header.ConnectionID == nil
+// [not checkable, engine havoc] ensures header-hs: ACC(result) && D(0) == 22 ==> r.Header.ContentType == protocol.ContentType(D(0)) && r.Header.Version.Major == D(1) && r.Header.Version.Minor == D(2)
+// [not checkable, engine havoc]    && r.Header.Epoch == 0 && int(r.Header.ContentLen) == DLEN16(11) && r.Header.ConnectionID == nil
+// [not checkable, engine havoc] ensures header-seq-nonhs: ACC(result) && D(0) != 22 ==> r.Header.SequenceNumber == uint64(D(5))<<40 | uint64(D(6))<<32 | uint64(D(7))<<24 | uint64(D(8))<<16 | uint64(D(9))<<8 | uint64(D(10))
+// [not checkable, engine havoc] ensures alert-content: ACC(result) && D(0) == 21 ==> typeIs(r.Content, "*github.com/pion/dtls/v3/pkg/protocol/alert.Alert") && len(data) == 15
+// [not checkable, engine havoc]    && r.Content.(*alert.Alert).Level == alert.Level(D(13)) && r.Content.(*alert.Alert).Description == alert.Description(D(14))
+//@ end
+
+// RFC 6347 4.1: DTLSPlaintext/DTLSCiphertext = 13 header bytes and `length` bytes of fragment.
+// declared lengths honoured: a record whose buffer is shorter than 13 + length is truncated and must be
+// rejected; bytes after 13 + length must not end up in the content.
+
+// Engine limit: r.Content.Unmarshal is an interface call through a struct field with more than 4
+// implementations; the engine havocs everything (including r and data), so clauses about the state after it
+// cannot be checked. They are kept as plain comments. `truncated` and `appdata-declared-len` are genuine
+// findings (replayed by hand: 13-byte record with declared length 5 is accepted; declared length 1 with 3
+// fragment bytes yields a 3-byte ApplicationData).
+//@ func RecordLayer.Unmarshal
+//@ ensures short: len(data) < 13 ==> result != nil
+//@ ensures truncated: len(data) >= 13 && len(data) - 13 < DLEN16(11) ==> result != nil
+//@ ensures bad-type: len(data) >= 13 && D(0) != 20 && D(0) != 21 && D(0) != 22 && D(0) != 23 && D(0) != 26 && D(0) != 27 ==> result != nil
+// [not checkable, engine havoc] ensures header-nonhs: result == nil && D(0) != 22 ==> r.Header.ContentType == protocol.ContentType(D(0)) && r.Header.Version.Major == D(1) && r.Header.Version.Minor == D(2)
+// [not checkable, engine havoc]    && r.Header.Epoch == uint16(D(3))<<8 | uint16(D(4)) && int(r.Header.ContentLen) == DLEN16(11)
+// [not checkable, engine havoc] ensures header-hs: result == nil && D(0) == 22 ==> r.Header.ContentType == protocol.ContentType(D(0)) && r.Header.Version.Major == D(1) && r.Header.Version.Minor == D(2)
+// [not checkable, engine havoc]    && r.Header.Epoch == uint16(D(3))<<8 | uint16(D(4)) && int(r.Header.ContentLen) == DLEN16(11)
+// [not checkable, engine havoc] ensures appdata-type: result == nil && D(0) == 23 ==> typeIs(r.Content, "*github.com/pion/dtls/v3/pkg/protocol.ApplicationData")
+//@ ensures appdata-declared-len: result == nil && D(0) == 23 ==> len(r.Content.(*protocol.ApplicationData).Data) == DLEN16(11)
+// [not checkable, engine havoc] ensures appdata-content: result == nil && D(0) == 23 && len(data) - 13 >= DLEN16(11) ==> len(r.Content.(*protocol.ApplicationData).Data) >= DLEN16(11)
+// [not checkable, engine havoc]    && forall(0, DLEN16(11), func(i int) bool { return r.Content.(*protocol.ApplicationData).Data[i] == old(data[13+i]) })
+// [not checkable, engine havoc] ensures alert-content: result == nil && D(0) == 21 ==> typeIs(r.Content, "*github.com/pion/dtls/v3/pkg/protocol/alert.Alert")
+// [not checkable, engine havoc]    && r.Content.(*alert.Alert).Level == alert.Level(D(13)) && r.Content.(*alert.Alert).Description == alert.Description(D(14))
+//@ end
